@@ -216,10 +216,48 @@ def d2(ctx, rep):
         rep.bad('D2.scope', w, w.node.name, 'the wrapper has no self parameter', construct='wrapper(self, ...)')
         return
     sp = w.params[0]
+    from ..idioms import enum_paths, single_def
     calls = [c for c in walk_no_nested(w.node) if isinstance(c, ast.Call) and isinstance(c.func, ast.Name)
              and c.func.id == pname]
-    rep.floor('D2.scope', 'calls of the wrapped function inside the wrapper', len(calls), 1)
+    # the wrapped function handed to a project helper that calls it (higher-order form)
+    handed = [c for c in walk_no_nested(w.node) if isinstance(c, ast.Call) and c not in calls
+              and any(isinstance(a, ast.Name) and a.id == pname for a in c.args)
+              and not any(c is x for d_ in w.node.decorator_list for x in ast.walk(d_))]
+    if not calls and not handed:
+        rep.bad('D2.scope', w, w.node.name, 'the wrapped function is never called', construct='function(self, ...)')
+        return
+
+    def res(e):
+        """A local that is the single name of an expression stands for that expression."""
+        if isinstance(e, ast.Name) and e.id not in w.params:
+            d_ = single_def(w.node, e.id)
+            if isinstance(d_, ast.AST):
+                return d_
+        return e
+
+    def only_when_stateless(c):
+        st_c = stmt_of(c)
+        okg, n_paths = True, 0
+        for path in enum_paths(w.body()):
+            if path.end is not st_c and st_c not in path.stmts:
+                continue
+            n_paths += 1
+            est = False
+            for test, pol in path.conds:
+                nt = is_none_test(test) if isinstance(test, ast.expr) else None
+                if nt is not None and is_self_attr(res(nt[0]), sp, 'random_state') and nt[1] == pol:
+                    est = True
+            okg = okg and est
+        return okg and n_paths > 0
+
+    def forwards(c, skip=0):
+        rest = c.args[skip:]
+        return bool(rest and isinstance(rest[0], ast.Name) and rest[0].id == sp
+                    and (w.vararg is None or any(isinstance(a, ast.Starred) and isinstance(a.value, ast.Name) and a.value.id == w.vararg for a in rest))
+                    and (w.kwarg is None or any(k.arg is None and isinstance(k.value, ast.Name) and k.value.id == w.kwarg for k in c.keywords)))
+
     scoped = 0
+    undecided_scope = False
     for c in calls:
         wth = _inside_with_set_random_state(prog, w, c)
         if wth is not None:
@@ -236,7 +274,7 @@ def d2(ctx, rep):
                         return ast.Attribute(value=bind[a.value.id], attr=a.attr, ctx=ast.Load())
                     return a
                 a0, a1 = subst(a0), subst(a1)
-            ok = is_self_attr(a0, sp, 'random_state') and is_self_attr(a1, sp, 'set_random_state')
+            ok = is_self_attr(res(a0), sp, 'random_state') and is_self_attr(res(a1), sp, 'set_random_state')
             rep.check('D2.scope', w, ce, ok,
                       f"scoped by the model's own state and setter ({short(ce, 80)})",
                       'the context manager is not given self.random_state and self.set_random_state: the advanced '
@@ -245,34 +283,59 @@ def d2(ctx, rep):
             # the `with` itself must not be reachable with random_state None (get_state() on None) - not a C15 matter
         else:
             # path-based: every path that reaches this unscoped call has established random_state is None
-            from ..idioms import enum_paths
-            st_c = stmt_of(c)
-            okg = True
-            n_paths = 0
-            for path in enum_paths(w.body()):
-                if path.end is not st_c and st_c not in path.stmts:
-                    continue
-                n_paths += 1
-                est = False
-                for test, pol in path.conds:
-                    nt = is_none_test(test) if isinstance(test, ast.expr) else None
-                    if nt is not None and is_self_attr(nt[0], sp, 'random_state') and nt[1] == pol:
-                        est = True
-                okg = okg and est
-            rep.check('D2.scope', w, c, okg and n_paths > 0,
+            rep.check('D2.scope', w, c, only_when_stateless(c),
                       'unscoped call is reached only when `self.random_state is None` (global-driven sampling by design)',
                       'the wrapped function is called outside set_random_state although the model may have a seed')
-        # forwards self, *args, **kwargs
-        fw = (c.args and isinstance(c.args[0], ast.Name) and c.args[0].id == sp
-              and (w.vararg is None or any(isinstance(a, ast.Starred) and isinstance(a.value, ast.Name)
-                                           and a.value.id == w.vararg for a in c.args))
-              and (w.kwarg is None or any(k.arg is None and isinstance(k.value, ast.Name) and k.value.id == w.kwarg
-                                          for k in c.keywords)))
         st = stmt_of(c)
-        rep.check('D2.result', w, c, bool(fw) and isinstance(st, ast.Return) and st.value is c,
+        rep.check('D2.result', w, c, forwards(c) and isinstance(st, ast.Return) and st.value is c,
                   'result returned, arguments forwarded unchanged',
                   'the result of the wrapped function is dropped or its arguments are not forwarded')
-    if not scoped:
+    for c in handed:
+        h = prog.functions.get(prog.resolve(w.module, c.func) or '')
+        idx = next(i for i, a in enumerate(c.args) if isinstance(a, ast.Name) and a.id == pname)
+        if h is None or h.cls is not None or idx >= len(h.params) or any(isinstance(a, ast.Starred) for a in c.args[:idx + 1]):
+            rep.undecided('D2.scope', w, c, f'the wrapped function is handed to `{short(c.func, 40)}`, which is not followed', construct='higher-order call')
+            undecided_scope = True
+            continue
+        fpar = h.params[idx]
+        inner = [x for x in walk_no_nested(h.node) if isinstance(x, ast.Call) and isinstance(x.func, ast.Name) and x.func.id == fpar]
+        bindh = {h.params[i]: a for i, a in enumerate(c.args[:len(h.params)]) if not isinstance(a, ast.Starred)}
+        if len(inner) != 1 or len(c.args) < len(h.params):
+            rep.undecided('D2.scope', w, c, f'`{h.name}` does not call the function it is handed exactly once', construct='higher-order call')
+            undecided_scope = True
+            continue
+        x = inner[0]
+        wth = _inside_with_set_random_state(prog, h, x)
+        if wth is None:
+            rep.check('D2.scope', w, c, only_when_stateless(c),
+                      'unscoped call is reached only when `self.random_state is None` (global-driven sampling by design)',
+                      f'the wrapped function is called (through {h.name}) outside set_random_state although the model may have a seed')
+        else:
+            sc = [scope_of_context(prog, h, it.context_expr) for it in wth.items]
+            ce, owner, _b = [y for y in sc if y is not None][0]
+            if owner is not h:
+                rep.undecided('D2.scope', w, c, 'scope factory inside a higher-order helper: not followed', construct='higher-order call')
+                undecided_scope = True
+                continue
+            a0 = ce.args[0] if ce.args else None
+            a1 = ce.args[1] if len(ce.args) > 1 else None
+            a0 = bindh.get(a0.id, a0) if isinstance(a0, ast.Name) else a0
+            a1 = bindh.get(a1.id, a1) if isinstance(a1, ast.Name) else a1
+            ok = is_self_attr(res(a0), sp, 'random_state') and is_self_attr(res(a1), sp, 'set_random_state')
+            rep.check('D2.scope', w, c, ok, f"scoped (inside {h.name}) by the model's own state and setter",
+                      'the context manager is not given self.random_state and self.set_random_state: the advanced '
+                      'stream would be written back to the wrong place')
+            scoped += 1
+        # forwarding: w hands (self, *args, **kwargs) on, the helper passes its own *rest, **kw to the function and returns the result
+        fw_h = (h.vararg is not None and any(isinstance(a, ast.Starred) and isinstance(a.value, ast.Name) and a.value.id == h.vararg for a in x.args)
+                and len(x.args) == 1 and (h.kwarg is None or any(k.arg is None and isinstance(k.value, ast.Name) and k.value.id == h.kwarg for k in x.keywords))
+                and (w.kwarg is None or h.kwarg is not None))
+        stx, st = stmt_of(x), stmt_of(c)
+        rep.check('D2.result', w, c, forwards(c, len(h.params)) and fw_h and isinstance(stx, ast.Return) and stx.value is x
+                  and isinstance(st, ast.Return) and st.value is c,
+                  f'result returned through {h.name}, arguments forwarded unchanged',
+                  'the result of the wrapped function is dropped or its arguments are not forwarded')
+    if not scoped and not undecided_scope:
         rep.bad('D2.scope', w, w.node.name, 'no call of the wrapped function under `with set_random_state(...)`',
                 construct='with set_random_state(self.random_state, self.set_random_state)')
 
@@ -496,11 +559,18 @@ def d6(ctx, rep):
             sc = [scope_of_context(prog, g, it.context_expr) for it in s.scoped_with.items]
             ce, owner, bind = [x for x in sc if x is not None][0]
             a0 = ce.args[0] if ce.args else None
+            if isinstance(a0, ast.Name) and a0.id not in owner.params:
+                from ..idioms import single_def
+                d_ = single_def(owner.node, a0.id)
+                a0 = d_ if isinstance(d_, ast.AST) else a0
             seed_arg = a0.args[0] if (isinstance(a0, ast.Call) and prog.resolve(owner.module, a0.func) == 'copulas.utils.validate_random_state'
                                       and a0.args) else None
             if owner is not g and isinstance(seed_arg, ast.Name):
                 seed_arg = bind.get(seed_arg.id)
             good = isinstance(seed_arg, ast.Name) and seed_arg.id == seedp
+            if seed_arg is None and not isinstance(a0, (ast.Constant, ast.Call)):
+                rep.undecided('D6.scope', g, s.call, f'what the scope is seeded with (`{short(a0, 40) if a0 is not None else "?"}`) is not derived')
+                continue
             rep.check('D6.scope', g, s.call, good, f'scoped by validate_random_state({seedp})',
                       'the scope is not seeded with this generator\'s `seed` parameter', )
         # calls of other generators must forward (size, seed)
